@@ -201,8 +201,13 @@ pub(crate) fn dpi_import_export_export_task(s: Span) -> IResult<Span, DpiImportE
 #[packrat_parser]
 pub(crate) fn dpi_spec_string(s: Span) -> IResult<Span, DpiSpecString> {
     alt((
-        map(keyword("\"DPI-C\""), |x| DpiSpecString::DpiC(Box::new(x))),
-        map(keyword("\"DPI\""), |x| DpiSpecString::Dpi(Box::new(x))),
+        // a string literal ends at its quote: no word boundary is needed after it
+        map(ws(map(tag("\"DPI-C\""), into_locate)), |x| {
+            DpiSpecString::DpiC(Box::new(Keyword { nodes: x }))
+        }),
+        map(ws(map(tag("\"DPI\""), into_locate)), |x| {
+            DpiSpecString::Dpi(Box::new(Keyword { nodes: x }))
+        }),
     ))(s)
 }
 
